@@ -2,7 +2,11 @@ package readline
 
 // Demonstrations of defects found by failed obligations (run in-package via -overlay).
 
-import "testing"
+import (
+	"os"
+	"path/filepath"
+	"testing"
+)
 
 func newTestShell(line string, pos int) *Shell {
 	rl := NewShell()
@@ -179,4 +183,60 @@ func TestVerifFindingC01RedrawCurrentLine(t *testing.T) {
 	rl := NewShell()
 	rl.init()
 	rl.Keymap.Commands()["redraw-current-line"]()
+}
+
+// C01 (fixed d046b1c): an editor that saves an empty file makes EditBuffer return (empty, nil); both edit
+// commands then called err.Error() on the nil error.
+func TestVerifFindingC01EditorEmptyBuffer(t *testing.T) {
+	dir := t.TempDir()
+	script := "#!/bin/sh\n: > \"$1\"\n"
+	for _, n := range []string{"emacs", "vi"} {
+		if err := os.WriteFile(filepath.Join(dir, n), []byte(script), 0o755); err != nil {
+			t.Fatal(err)
+		}
+	}
+	t.Setenv("PATH", dir+":"+os.Getenv("PATH"))
+	t.Setenv("VISUAL", "x")
+	t.Setenv("EDITOR", "x")
+	for name, run := range map[string]func(rl *Shell){
+		"edit-and-execute-command": func(rl *Shell) { rl.editAndExecuteCommand() },
+		"edit-command-line":        func(rl *Shell) { rl.editCommandLine() },
+	} {
+		rl := NewShell()
+		rl.init()
+		rl.line.Set([]rune("echo hello")...)
+		func() {
+			defer func() {
+				if r := recover(); r != nil {
+					t.Errorf("%s panicked when the editor saved an empty file: %v", name, r)
+				}
+			}()
+			run(rl)
+		}()
+	}
+}
+
+// C16 (fixed f909971): kill-whole-line, yank into the now empty buffer (Line.Insert did *l = chars: the line
+// was the kill buffer's array), then type in the middle of the line: the kill ring was rewritten in place.
+func TestVerifFindingC16YankAliasesKillRing(t *testing.T) {
+	rl := NewShell()
+	rl.init()
+	rl.line.Set([]rune("hello world")...)
+	rl.cursor.Set(3)
+	rl.killWholeLine()
+	rl.yank()
+	if string(*rl.line) != "hello world" {
+		t.Fatalf("line after yank: %q", string(*rl.line))
+	}
+	rl.cursor.Set(2)
+	rl.line.Insert(2, 'X') // what self-insert does
+	if got := string(rl.Buffers.Active()); got != "hello world" {
+		t.Errorf("kill buffer changed by typing into the yanked line: %q, want %q", got, "hello world")
+	}
+	rl.line.Set()
+	rl.cursor.Set(0)
+	rl.yank()
+	if got := string(*rl.line); got != "hello world" {
+		t.Errorf("second yank gives %q, want %q", got, "hello world")
+	}
 }
